@@ -9,6 +9,7 @@ import (
 	"sort"
 	"strings"
 	"sync/atomic"
+	"time"
 
 	jsonrpc "github.com/filecoin-project/go-jsonrpc"
 	"github.com/filecoin-project/go-jsonrpc/auth"
@@ -502,6 +503,30 @@ func (p c19) runE2E(sc core.Scenario, r *core.R) {
 		}
 		p.callAll(&cl, context.Background(), impl, effective, r, fmt.Sprintf("e2e %s def=%s %s", tr, permStr(def), label))
 		closer()
+		// the same three error-only methods sent as notifications: they are judged against the same set
+		var nt c19Notify
+		closer2, err := jsonrpc.NewMergeClient(context.Background(), addr, "P", []interface{}{&nt}, hdr)
+		if err != nil {
+			r.Inconclusive("client: %v", err)
+			return
+		}
+		want := int64(0)
+		for _, pp := range permU {
+			if has(effective, pp) {
+				want++
+			}
+		}
+		before := atomic.LoadInt64(&impl.n)
+		nt.Er(context.Background())
+		nt.Ew(context.Background())
+		nt.Ea(context.Background())
+		core.Eventually(time.Second, func() bool { return atomic.LoadInt64(&impl.n)-before == want })
+		time.Sleep(30 * time.Millisecond)
+		if got := atomic.LoadInt64(&impl.n) - before; got != want {
+			r.Violate("perm-notification", "e2e %s def=%s %s: notifications for the methods needing r, w and a ran the implementation %d times, the effective set %s allows %d", tr, permStr(def), label, got, permStr(effective), want)
+		}
+		r.Obs("calls", 3)
+		closer2()
 	}
 	// a rejected token must not get through
 	var cl c19Proxy
@@ -516,6 +541,12 @@ func (p c19) runE2E(sc core.Scenario, r *core.R) {
 	}
 	r.Obs("e2e_clients", 9)
 	r.Sample(map[string]interface{}{"transport": tr, "defaults": permStr(def), "impl_invocations": atomic.LoadInt64(&impl.n)})
+}
+
+type c19Notify struct {
+	Er func(ctx context.Context) error `notify:"true"`
+	Ew func(ctx context.Context) error `notify:"true"`
+	Ea func(ctx context.Context) error `notify:"true"`
 }
 
 type c19OtherKey struct{}
